@@ -728,7 +728,25 @@ fn record_mt(out: &mut ShardOut, ctx: &Ctx, mc: &MtCase, bound: usize, family: &
             out.evaluations += 1;
             out.count("mt_schedules_explored", 1);
             out.count(&format!("mt_schedules_explored:family={}", family), 1);
-            let res = guarded(|| run_mt(mc, prefix));
+            let mut res = guarded(|| run_mt(mc, prefix));
+            // "stuck" = the baton holder did not reach its next point within 10 s, which on a heavily
+            // loaded machine can be CPU starvation: re-execute the same prefix (up to twice); a one-off
+            // stall is counted and the successful re-execution is used, a reproduced one is judged below
+            for _ in 0..2 {
+                match &res {
+                    Ok(Err(e)) if e.contains("stuck") => {
+                        let again = guarded(|| run_mt(mc, prefix));
+                        match &again {
+                            Ok(Err(e2)) if e2.contains("stuck") => break,
+                            _ => {
+                                out.count("one_off_scheduler_stalls_re_executed", 1);
+                                res = again;
+                            }
+                        }
+                    }
+                    _ => break,
+                }
+            }
             match res {
                 Err(p) => {
                     out.fail(mt_case_json(mc, prefix), "panic", p, mt_tags(mc, "nothing"));
